@@ -192,6 +192,8 @@ func registerAll() {
 	ev.Register("token-type", tokenTypes)
 	ev.Register("guess", guess)
 	ev.Register("guess-random", guess)
+	ev.Register("guess-pairs", guessSeq)
+	ev.Register("guess-histories", guessSeq)
 }
 
 func TestPropVocabulary(t *testing.T) {
@@ -298,6 +300,113 @@ func TestPropGuessRandom(t *testing.T) {
 			}
 		}
 		return guess(c)
+	})
+}
+
+// ---- histories: a literal's answer does not depend on the calls made before it, failing ones included
+
+type SeqCase struct {
+	Texts []string `json:"texts"`
+}
+
+var notLiterals = []string{"invalid", "@cat", "nul", "-", "1x", "", " 1", "tru", `"abc`, "1.", ".5", "+1", "01", "{}", "[]", "1e", "--1", "nulll", "True", "@", "1 2", "\x00", "0x10", "1.0.0", "e5", "-e", "\"", "'a'"}
+
+func guessSeq(c SeqCase) *ev.Verdict {
+	failedBefore := false
+	for i, s := range c.Texts {
+		if !isLiteral(s) {
+			if esc := sut.Trap("GuessSchemaType", func() { _, _ = schema.GuessSchemaType([]byte(s)) }); esc != nil {
+				return ev.V("guess:panic:"+esc.Frame, "GuessSchemaType(%q) panicked: %s", s, esc.Value)
+			}
+			failedBefore = true
+			continue
+		}
+		var want string
+		if esc := sut.Trap("json.Guess", func() { want = jjson.Guess(jbytes.NewBytes(s)).JsonType().String() }); esc != nil {
+			continue
+		}
+		var got schema.SchemaType
+		var err error
+		if esc := sut.Trap("GuessSchemaType", func() { got, err = schema.GuessSchemaType([]byte(s)) }); esc != nil {
+			return ev.V("guess:panic:"+esc.Frame, "GuessSchemaType(%q) panicked: %s", s, esc.Value)
+		}
+		ans := string(got)
+		if err != nil {
+			ans = "error"
+		}
+		if ans != want {
+			after := "earlier calls"
+			if failedBefore {
+				after = "a failing call"
+			}
+			return ev.V("guess:history:"+litClass(s), "call %d of %q: GuessSchemaType(%q) = %q after %s, the scanner's classifier says %q", i, c.Texts, s, ans, after, want)
+		}
+	}
+	return nil
+}
+
+var guessLits = []string{"0", "-0", "1", "-12", "0.5", "1.0", "-3.00", "0.0", "1.50", "1e5", "1E+2", "0.5e-3", "1.0e+00", "100e-2", "10e-1", "true", "false", "null", "{", "[", `"a"`, `"1.0"`, `"a.b"`, `""`, `"null"`, `"1e5"`}
+
+func TestPropGuessHistories(t *testing.T) {
+	registerAll()
+	lits := guessLits
+	// every ordered pair (non-literal or literal, literal), then random longer histories
+	ev.KeepFirst("guess-pairs")
+	idx := 0
+	var bad int64
+	for _, a := range append(append([]string{}, notLiterals...), lits...) {
+		for _, b := range lits {
+			idx++
+			if !ev.Mine(idx) {
+				continue
+			}
+			c := SeqCase{[]string{a, b}}
+			ev.Count("guess-pairs", 1)
+			if !isLiteral(a) {
+				ev.NonTrivial("guess-pairs", a+"\x00"+b)
+			}
+			if v := guessSeq(c); v != nil && ev.Report("guess-pairs", c, v) {
+				bad++
+			}
+		}
+	}
+	ev.Sample("guess-pairs", SeqCase{[]string{"invalid", "1.0"}})
+	ev.Exhaustive("guess-pairs", fmt.Sprintf("every call pair (x, literal) with x from %d non-literal texts and %d literals, literal from the %d literals", len(notLiterals), len(lits), len(lits)))
+	if bad > 0 {
+		t.Errorf("VIOLATION-CANDIDATE guess-pairs: %d", bad)
+	}
+}
+
+func TestPropGuessHistoriesRandom(t *testing.T) {
+	registerAll()
+	lits := guessLits
+	ev.Rapid(t, "guess-histories", ev.N(3000, 30000), func(t *rapid.T) SeqCase {
+		n := rapid.IntRange(2, 12).Draw(t, "n")
+		var c SeqCase
+		for i := 0; i < n; i++ {
+			if rapid.IntRange(0, 2).Draw(t, "fails") == 0 {
+				c.Texts = append(c.Texts, rapid.SampledFrom(notLiterals).Draw(t, "bad"))
+			} else {
+				c.Texts = append(c.Texts, rapid.SampledFrom(lits).Draw(t, "lit"))
+			}
+		}
+		return c
+	}, func(c SeqCase) *ev.Verdict {
+		fails, after := false, false
+		for _, s := range c.Texts {
+			if !isLiteral(s) {
+				fails = true
+			} else if fails {
+				after = true
+			}
+		}
+		if after {
+			ev.NonTrivial("guess-histories", strings.Join(c.Texts, "\x00"))
+			if ev.WantSample("guess-histories") {
+				ev.Sample("guess-histories", c)
+			}
+		}
+		return guessSeq(c)
 	})
 }
 
